@@ -1,7 +1,7 @@
 #!/bin/bash
 # usage: tools/seedrun.sh <patch.diff> <ID> [<ID>...]   -- apply a seeded change to /repo, run the quick checks, always revert.
 # Never leaves /repo modified. Prints one line per check: SEED <patch> <ID> rc=<rc> violations=<n> keys=...
-PATCH="$1"; shift
+PATCH="$(realpath "$1")"; shift
 if [ -n "$(git -C /repo status --porcelain --untracked-files=no)" ]; then echo "refusing: /repo has uncommitted changes"; exit 2; fi
 trap 'git -C /repo checkout -- . >/dev/null 2>&1' EXIT
 if ! git -C /repo apply "$PATCH" 2>/dev/null; then
